@@ -79,6 +79,21 @@ pub fn handle(op: &str, cmd: &Value) -> Value {
             json!({"all_ok": ok_empty && ok_ident && ok_ns && ok_disp, "is_empty": ok_empty, "ident": ok_ident, "namespace": ok_ns, "display": ok_disp})
         }
         "table_step" => table_step(cmd),
+        "corpus_native" => {
+            let r = match cmd["tag"].as_str().unwrap_or("") { "c03" => crate::c03_gen::native_all(cmd["rounds"].as_u64().unwrap_or(300) as usize, cmd["seed"].as_u64().unwrap_or(1)), _ => vec![] };
+            json!({"failed": r.iter().filter(|x| x.1 > 0).map(|x| json!({"harness": x.0, "bad": x.1})).collect::<Vec<_>>(), "roots": r.len()})
+        }
+        "dump_corpus" => {
+            let roots = match cmd["tag"].as_str().unwrap_or("") { "c03" => crate::corpus_c03::roots(), _ => vec![] };
+            let mut m = serde_json::Map::new();
+            for (name, mt) in roots {
+                let mut reg = scale_info::Registry::new();
+                let id = reg.register_type(&mt).id;
+                let pr: scale_info::PortableRegistry = reg.into();
+                m.insert(name.to_string(), json!({"root": id, "types": crate::reg::registry_to_json(&pr)}));
+            }
+            Value::Object(m)
+        }
         "json_shape" => crate::jsonref::judge(&crate::reg::registry_from_json(&cmd["types"])),
         "json_battery" => {
             let mut bad = vec![]; let mut n = 0;
